@@ -132,7 +132,7 @@ def main(argv=None):
     # ---------------- replay counterexamples on the real code
     cex = [c for r in results for c in r['cex']]
     rep = conc_pool.map(_conc_worker, [(hname, c['case'], c['inputs'], c['script'], 30) for c in cex], chunksize=1) if cex else []
-    violations = []; known_hits = {}; problems = []
+    violations = []; known_hits = {}; problems = []; diverged = []; reproduced_keys = set()
     os.makedirs(os.path.join(VERIF, 'replays', prop), exist_ok=True)
     for c, rr in zip(cex, rep):
         key = label_key(c['label'])
@@ -146,14 +146,22 @@ def main(argv=None):
                 reproduced = True; c['replay']['reproduced'] = True; c['replay']['note'] = 'different obligation violated on replay'
                 c['label'] = rr['violations'][0]
         if not reproduced:
-            problems.append('counterexample for %s in case %s did not reproduce on the real code (replay status %s, exception %s)' % (c['label'], c['case']['name'], rr['status'], rr.get('exception')))
+            msg = 'counterexample for %s in case %s did not reproduce on the real code (replay status %s, exception %s)' % (c['label'], c['case']['name'], rr['status'], rr.get('exception'))
+            if rr['status'] == 'script_diverged' and getattr(H, 'WITNESS_TIE_SENSITIVE', False):
+                # exact-vs-double tie breaking sent the real code down another trajectory: only a problem if no other
+                # counterexample for the same obligation of the same function reproduces
+                diverged.append(((c['case'].get('fn'), key), msg))
+            else: problems.append(msg)
             continue
+        reproduced_keys.add((c['case'].get('fn'), key))
         k = match_known(known, prop, c)
         if k is not None:
             known_hits.setdefault(k['id'], dict(finding=k, n=0)); known_hits[k['id']]['n'] += 1
         else:
             violations.append(c)
 
+    for k_, msg in diverged:
+        if k_ not in reproduced_keys: problems.append(msg)
     # ---------------- listed open findings with a stored replay: confirm each still reproduces on the real code
     for k in known:
         if k.get('status') != 'open' or k['property'] != prop or not k.get('replay_file') or k['id'] in known_hits: continue
